@@ -120,6 +120,7 @@ fn row_alt_ok(want: Alt, before: Option<u32>, after: Option<u32>) -> bool {
 #[cfg_attr(kani, kani::unwind(33))]
 #[cfg_attr(kani, kani::stub(chrono::Utc::now, crate::verif::rt::stub_now))]
 #[cfg_attr(kani, kani::stub(crate::decoder::get_downlink_format, super::rows::stub_get_df))]
+#[cfg_attr(kani, kani::stub(crate::decoder::adsb::icao::get_icao, super::rows::stub_get_icao))]
 #[cfg_attr(verif_replay, test)]
 fn c05_row_df4() {
     let m = frame14();
@@ -148,6 +149,7 @@ fn c05_row_df4() {
 #[cfg_attr(kani, kani::unwind(33))]
 #[cfg_attr(kani, kani::stub(chrono::Utc::now, crate::verif::rt::stub_now))]
 #[cfg_attr(kani, kani::stub(crate::decoder::get_downlink_format, super::rows::stub_get_df))]
+#[cfg_attr(kani, kani::stub(crate::decoder::adsb::icao::get_icao, super::rows::stub_get_icao))]
 #[cfg_attr(verif_replay, test)]
 fn c05_create_df4() {
     let m = frame14();
@@ -169,6 +171,7 @@ fn c05_create_df4() {
 #[cfg_attr(kani, kani::unwind(90))]
 #[cfg_attr(kani, kani::stub(chrono::Utc::now, crate::verif::rt::stub_now))]
 #[cfg_attr(kani, kani::stub(crate::decoder::get_downlink_format, super::rows::stub_get_df))]
+#[cfg_attr(kani, kani::stub(crate::decoder::adsb::icao::get_icao, super::rows::stub_get_icao))]
 #[cfg_attr(kani, kani::stub(crate::decoder::adsb::ais::ais, super::rows::stub_ais))]
 #[cfg_attr(verif_replay, test)]
 fn c05_row_df20() {
@@ -191,18 +194,22 @@ fn c05_row_df20() {
 }
 
 macro_rules! row_tc {
-    ($name:ident, $tc:expr) => {
+    ($name:ident, $tc:expr, $f:expr) => {
         #[cfg_attr(kani, kani::proof)]
         #[cfg_attr(kani, kani::unwind(33))]
         #[cfg_attr(kani, kani::stub(chrono::Utc::now, crate::verif::rt::stub_now))]
         #[cfg_attr(kani, kani::stub(crate::decoder::get_downlink_format, super::rows::stub_get_df))]
+        #[cfg_attr(kani, kani::stub(crate::decoder::adsb::icao::get_icao, super::rows::stub_get_icao))]
         #[cfg_attr(kani, kani::stub(crate::decoder::utils::get_message_type, super::rows::stub_get_tc))]
         #[cfg_attr(kani, kani::stub(crate::decoder::adsb::position::cpr_location, super::rows::stub_cpr_location))]
+        #[cfg_attr(kani, kani::stub(crate::decoder::adsb::position::cpr, super::rows::stub_cpr))]
+        #[cfg_attr(kani, kani::stub(crate::decoder::adsb::ais::ais, super::rows::stub_ais))]
         #[cfg_attr(verif_replay, test)]
         fn $name() {
             let m = frame28();
             pin_df(&m, 17);
             pin_tc(&m, $tc);
+            pin_f(&m, $f);
             if C05_GILLHAM_OPEN {
                 assume(!gillham12(&m));
             }
@@ -222,15 +229,15 @@ macro_rules! row_tc {
         }
     };
 }
-// @harness name=c05_row_tc11 props=C05,C11 tier=quick cap=900
-// row step: any DF17 TC11 squitter on an arbitrary row, -U/-R symbolic, position decode stubbed (no fix)
-row_tc!(c05_row_tc11, 11);
+// @harness name=c05_row_tc11 props=C05,C11 tier=quick cap=1500
+// row step: any even DF17 TC11 squitter on an arbitrary row, -U/-R symbolic, position decode stubbed (no fix)
+row_tc!(c05_row_tc11, 11, 0);
 // @harness name=c05_row_tc9 props=C05,C11 tier=thorough cap=900
-// row step: TC9
-row_tc!(c05_row_tc9, 9);
+// row step: TC9, odd frame
+row_tc!(c05_row_tc9, 9, 1);
 // @harness name=c05_row_tc18 props=C05,C11 tier=thorough cap=900
-// row step: TC18
-row_tc!(c05_row_tc18, 18);
+// row step: TC18, even frame
+row_tc!(c05_row_tc18, 18, 0);
 // @harness name=c05_row_tc13 props=C05,C11 tier=thorough cap=900
-// row step: TC13
-row_tc!(c05_row_tc13, 13);
+// row step: TC13, odd frame
+row_tc!(c05_row_tc13, 13, 1);
